@@ -109,8 +109,8 @@ TARGETS = [{'k': 'x'}, {'k': 'x', 'nested': {'a': [1, {'b': None}], 'c': 1.5}}, 
 CTX = ['bare', 'not', 'and', 'or', 'shortcut', 'alias']
 
 
-def build(ctxt, scheme):
-    leaf = ev.http(scheme, '//policy.example/v1/', ev.ph('k'))
+def build(ctxt, scheme, static=False):
+    leaf = ev.http(scheme, '//policy.example/v1/', ev.ph('k')) if not static else ev.http(scheme, '//policy.example/v1/check?scope=compute%2Fservers')
     if ctxt == 'bare':
         t = leaf
     elif ctxt == 'not':
@@ -126,13 +126,14 @@ def build(ctxt, scheme):
     return t, leaf
 
 
-def one(ctx, rng, body, status, fault, ctype, target, ctxt, pname, scheme, by, tls=None, enf_cache={}):
+def one(ctx, rng, body, status, fault, ctype, target, ctxt, pname, scheme, by, tls=None, enf_cache={}, static=False, reuse=None):
     from oslo_config import cfg
     from oslo_policy import policy, _parser
-    tree, leaf = build(ctxt, scheme)
+    tree, leaf = build(ctxt, scheme, static)
     rules = [(pname, tree), ('remote', leaf)]
     texts = {n: ev.rule_text(t) for n, t in rules}
-    e = ev.make_enforcer(texts, ('opt', None))
+    # a long-lived enforcer (and its parsed check objects) may be handed in: options then change between calls
+    e = reuse if reuse is not None else ev.make_enforcer(texts, ('opt', None))
     e.conf.set_override('remote_content_type', 'application/json' if ctype == 'json' else 'application/x-www-form-urlencoded', group='oslo_policy')
     tmp = None
     spec_fault = fault
@@ -231,6 +232,17 @@ def run(ctx):
         scheme = rng.choice(['http', 'https'])
         by = 'check' if (rng.random() < 0.15 and ctxt != 'alias') else 'name'
         cases.append(one(ctx, rng, body, status, 'none', ctype, target, ctxt, pname, scheme, by))
+    # static URLs with an escaped percent sign
+    for ctxt in CTX:
+        for scheme in ('http', 'https'):
+            cases.append(one(ctx, rng, rng.choice(['True', 'no']), 200, 'none', rng.choice(['form', 'json']), {'k': 'x'}, ctxt, 'p:x', scheme, 'name', static=True))
+    # one long-lived enforcer, the content-type option changed between calls
+    for scheme in ('http', 'https'):
+        for ctxt in ('bare', 'or', 'alias'):
+            tree, leaf = build(ctxt, scheme)
+            live = ev.make_enforcer({'p:x': ev.rule_text(tree), 'remote': ev.rule_text(leaf)}, ('opt', None))
+            for ctype in ('form', 'json', 'json', 'form', 'json'):
+                cases.append(one(ctx, rng, 'True', 200, 'none', ctype, {'k': 'x'}, ctxt, 'p:x', scheme, 'name', reuse=live))
     n_body = len(cases)
     # faults x contexts x bodies that would allow
     for fault in ['timeout', 'connect_timeout', 'connection', 'ssl']:
